@@ -157,6 +157,7 @@ func (s *Sim) Quiesce() {
 					return true
 				})
 				s.count("probe.pause_lifted_at_quiesce")
+				s.Unpaused = append(s.Unpaused, key(set.Namespace, set.Name))
 			}
 		}
 	}
@@ -252,14 +253,18 @@ func (s *Sim) Quiesce() {
 		return
 	}
 	if !fixed {
-		s.violate("C02", "C02.no-fixed-point", "budget", fmt.Sprintf("no fixed point after %d rounds / %d reconciles (bound R=%d)", round, reconciles, R))
+		busy := ""
+		if n := len(s.Recs); n > 0 {
+			busy = s.Recs[n-1].Key // the key still being reconciled when the budget ran out
+		}
+		s.violateSet(busy, "C02", "C02.no-fixed-point", "budget", fmt.Sprintf("no fixed point after %d rounds / %d reconciles (bound R=%d)", round, reconciles, R))
 		return
 	}
 	// fixed point predicate
 	for _, ky := range s.Store.Keys(KSet) {
 		set := s.Store.tables[KSet][ky].(*asv1.StatefulSet)
 		if msg := s.fixedPointDefect(set); msg != "" {
-			s.violate("C02", "C02.no-fixed-point", strings.SplitN(msg, ":", 2)[0], fmt.Sprintf("set %s quiescent but not converged: %s", set.Name, msg))
+			s.violateSet(key(set.Namespace, set.Name), "C02", "C02.no-fixed-point", strings.SplitN(msg, ":", 2)[0], fmt.Sprintf("set %s quiescent but not converged: %s", set.Name, msg))
 		}
 	}
 	if len(s.Viol) > 0 {
@@ -283,12 +288,20 @@ func (s *Sim) Quiesce() {
 			if n := len(rec.Calls); n > 0 {
 				last = rec.Calls[n-1].Verb + " " + rec.Calls[n-1].Kind.String()
 			}
-			s.violate("C02", "C02.not-quiet", "retry-loop after "+last, fmt.Sprintf("at the fixed point with no faults a reconcile of %s still fails and is retried for ever (last call: %s)", rec.Key, last))
+			s.violateSet(rec.Key, "C02", "C02.not-quiet", "retry-loop after "+last, fmt.Sprintf("at the fixed point with no faults a reconcile of %s still fails and is retried for ever (last call: %s)", rec.Key, last))
 		}
 	}
 	if w := s.writeCalls(); w != writesBefore || s.Store.Mutations != before {
 		last := s.lastWrite()
-		s.violate("C02", "C02.not-quiet", last, fmt.Sprintf("%d write calls in forced reconciles at the fixed point (last: %s)", w-writesBefore, last))
+		writer := ""
+		for _, rec := range s.Recs[recsBefore:] {
+			for _, c := range rec.Calls {
+				if c.IsWrite() {
+					writer = rec.Key
+				}
+			}
+		}
+		s.violateSet(writer, "C02", "C02.not-quiet", last, fmt.Sprintf("%d write calls in forced reconciles at the fixed point (last: %s)", w-writesBefore, last))
 	}
 	s.oracles.atFixedPoint(s)
 }
